@@ -1589,19 +1589,6 @@ fn forward_device_data(
     }
 
     let broker_topic_aliases = &mut connection.broker_topic_aliases;
-    let mut topic_alias = broker_topic_aliases
-        .as_ref()
-        .and_then(|aliases| aliases.get_alias(&request.filter));
-
-    let topic_alias_already_exists = topic_alias.is_some();
-
-    // if topic alias doesn't exists, try creating new one!
-    if !topic_alias_already_exists {
-        topic_alias = broker_topic_aliases
-            .as_mut()
-            .and_then(|broker_aliases| broker_aliases.set_new_alias(&request.filter))
-    }
-
     let subscription_id = connection.subscription_ids.get(&request.filter);
 
     // Fill and notify device data
@@ -1610,16 +1597,27 @@ fn forward_device_data(
         .map(|((mut publish, mut properties), offset)| {
             publish.qos = protocol::qos(qos).unwrap();
 
-            // if there is some topic alias to use, set it in publish properties
-            if topic_alias.is_some() {
-                let mut props = properties.unwrap_or_default();
-                props.topic_alias = topic_alias;
-                properties = Some(props);
-            }
+            // A topic alias stands for one topic name, so it is looked up (or created) for the
+            // topic of each publish: a wildcard filter forwards publishes of many topics
+            if let Some(broker_aliases) = broker_topic_aliases.as_mut() {
+                if let Ok(topic) = std::str::from_utf8(&publish.topic) {
+                    let existing_alias = broker_aliases.get_alias(topic);
+                    // if topic alias doesn't exists, try creating new one!
+                    let topic_alias =
+                        existing_alias.or_else(|| broker_aliases.set_new_alias(topic));
 
-            // We want to clear topic if we are using an existing alias
-            if topic_alias_already_exists {
-                publish.topic.clear()
+                    // if there is some topic alias to use, set it in publish properties
+                    if topic_alias.is_some() {
+                        let mut props = properties.unwrap_or_default();
+                        props.topic_alias = topic_alias;
+                        properties = Some(props);
+                    }
+
+                    // We want to clear topic if we are using an existing alias
+                    if existing_alias.is_some() {
+                        publish.topic.clear()
+                    }
+                }
             }
 
             if let Some(&subscription_id) = subscription_id {
